@@ -122,10 +122,10 @@ func encDoc(cph int, sizes []int) []byte {
 
 type scriptReader struct {
 	data    []byte
-	chunk   int   // max bytes per Read
-	zeros   int   // (0,nil) results still to hand out, one before every data read
-	eofWith bool  // return io.EOF together with the last bytes
-	failAt  int   // return failErr once this many bytes were delivered (-1: never)
+	chunk   int  // max bytes per Read
+	zeros   int  // (0,nil) results still to hand out, one before every data read
+	eofWith bool // return io.EOF together with the last bytes
+	failAt  int  // return failErr once this many bytes were delivered (-1: never)
 	failErr error
 	pos     int
 }
@@ -459,7 +459,8 @@ func runEncGen(c *cctx, k int) {
 		case hdrEnd > 0 && len(base) > hdrEnd && rng.Chance(1, 3): // mutate the payload only
 			m = append(clone(base[:hdrEnd]), mutate(rng, base[hdrEnd:], base[:hdrEnd], false)...)
 		case hdrEnd > 0 && rng.Chance(1, 2): // mutate the header only
-			m = append(mutate(rng, base[:hdrEnd], seeds[rng.Intn(len(seeds))].doc[:min(200, len(seeds[rng.Intn(len(seeds))].doc))], rng.Chance(1, 6)), base[hdrEnd:]...)
+			other := seeds[rng.Intn(len(seeds))].doc
+			m = append(mutate(rng, base[:hdrEnd], other[:min(200, len(other))], rng.Chance(1, 6)), base[hdrEnd:]...)
 		default:
 			m = mutate(rng, base, nil, rng.Chance(1, 8))
 		}
